@@ -94,6 +94,11 @@ CHECKS = {
                      "bake every call raises RuntimeError and steps, results and tracking answers do not change. The "
                      "solver's part is the feasibility of bake over symbolic quantities; the universal quantification over "
                      "call sequences is by exhaustion of abstract states, stated as such."),
+    'C04': dict(engine=E1, design='§4 C04',
+                technique="symbolic execution of every public operation with structural fingerprints of all arguments before/after on every path incl. raising ones; z3 decides where multi-well operations / bake fail; depth-2 aliasing probes",
+                text="25 scenarios covering the Container, Plate/slice and Recipe APIs: every argument (objects, lists, "
+                     "slices incl. the plate they point to) has the same fingerprint after the call as before, on returning "
+                     "and on raising paths, and still after a second operation has been applied to every returned object."),
     'C02': dict(engine=E1, design='§4 C02',
                 technique="symbolic execution of Container.transfer/Plate.transfer with z3 (QF_NRA/LRA), differential vs independent unit table",
                 text="size of the aliquot (in the unit of q), uniformity (cross-multiplied ratios) and destination gain "
